@@ -451,7 +451,8 @@ class AudioThread(threading.Thread):
   def pause(self):
     """ Pauses the audio. """
     with self.lock:
-      self.go.clear()
+      if not self.halting: # A stopped thread can't be paused: it has to finish
+        self.go.clear()
 
   def play(self):
     """ Resume playing the audio. """
